@@ -208,26 +208,29 @@ unsigned long __CPROVER_uninterpreted_mullo (unsigned long, unsigned long);
 #define V_SUBMULREL(r,r0,u,v,ci,co) ((V_u128)(r) + V_PROD (u, v) + (V_u128)(ci) == (V_u128)(r0) + ((V_u128)(co) << 64))
 
 mp_limb_t __gmpn_mul_1 (mp_ptr rp, mp_srcptr up, mp_size_t n, mp_limb_t vl)
-__CPROVER_requires (1 <= n && n <= V_NMAX && 0 <= gk && gk < n)
+__CPROVER_requires (1 <= n && n <= V_NMAX && 0 <= gk && gk <= V_NMAX)
 __CPROVER_requires (V_W_OK (rp, n) && V_R_OK (up, n) && V_SAME_OR_INCR (rp, up, n))
 __CPROVER_assigns (__CPROVER_object_upto (rp, n * 8), g_ci, g_co)
-__CPROVER_ensures (V_MULREL (rp[gk], __CPROVER_old (up[gk]), vl, g_ci, g_co))
+__CPROVER_ensures (gk < n ==> V_MULREL (rp[gk], V_OLDSEL (gk < n, up + gk), vl, g_ci, g_co))
 __CPROVER_ensures (gk == 0 ==> g_ci == 0)
 __CPROVER_ensures (gk == n - 1 ==> g_co == __CPROVER_return_value)
+
+/* derived fact used by callers for well-formedness: a non-zero limb times a non-zero multiplier leaves a non-zero limb or carry */
+__CPROVER_ensures ((gk < n && V_OLDSEL (gk < n, up + gk) != 0 && vl != 0) ==> (rp[gk] != 0 || g_co != 0))
 ;
 mp_limb_t __gmpn_addmul_1 (mp_ptr rp, mp_srcptr up, mp_size_t n, mp_limb_t vl)
-__CPROVER_requires (1 <= n && n <= V_NMAX && 0 <= gk && gk < n)
+__CPROVER_requires (1 <= n && n <= V_NMAX && 0 <= gk && gk <= V_NMAX)
 __CPROVER_requires (V_W_OK (rp, n) && V_R_OK (up, n) && V_SAME_OR_SEPARATE (rp, up, n))
 __CPROVER_assigns (__CPROVER_object_upto (rp, n * 8), g_ci, g_co)
-__CPROVER_ensures (V_ADDMULREL (rp[gk], __CPROVER_old (rp[gk]), __CPROVER_old (up[gk]), vl, g_ci, g_co))
+__CPROVER_ensures (gk < n ==> V_ADDMULREL (rp[gk], V_OLDSEL (gk < n, rp + gk), V_OLDSEL (gk < n, up + gk), vl, g_ci, g_co))
 __CPROVER_ensures (gk == 0 ==> g_ci == 0)
 __CPROVER_ensures (gk == n - 1 ==> g_co == __CPROVER_return_value)
 ;
 mp_limb_t __gmpn_submul_1 (mp_ptr rp, mp_srcptr up, mp_size_t n, mp_limb_t vl)
-__CPROVER_requires (1 <= n && n <= V_NMAX && 0 <= gk && gk < n)
+__CPROVER_requires (1 <= n && n <= V_NMAX && 0 <= gk && gk <= V_NMAX)
 __CPROVER_requires (V_W_OK (rp, n) && V_R_OK (up, n) && V_SAME_OR_SEPARATE (rp, up, n))
 __CPROVER_assigns (__CPROVER_object_upto (rp, n * 8), g_ci, g_co)
-__CPROVER_ensures (V_SUBMULREL (rp[gk], __CPROVER_old (rp[gk]), __CPROVER_old (up[gk]), vl, g_ci, g_co))
+__CPROVER_ensures (gk < n ==> V_SUBMULREL (rp[gk], V_OLDSEL (gk < n, rp + gk), V_OLDSEL (gk < n, up + gk), vl, g_ci, g_co))
 __CPROVER_ensures (gk == 0 ==> g_ci == 0)
 __CPROVER_ensures (gk == n - 1 ==> g_co == __CPROVER_return_value)
 ;
